@@ -45,9 +45,19 @@ def replay_state(chk, st, table):
     scale = scale_for(n + b) if (n + b + len(hist)) % 3 == 2 else 1.0
     case = {'n': n, 'dt': dt, 'basis': b, 'hist': list(hist), 'sampling': sampling, 'expect': exp, 'scale': scale}
     steps = '->'.join([default] + list(hist)) if hist else default
+    # the stored vector as it may be typed: basis vectors are 0/1, i.e. a list of python ints or an integer array (every
+    # fourth unscaled state) - halving an entry of such a vector must not truncate it
+    # (the basis vectors of the model carry the value 2 so that the model stays integral; an odd value shows truncation)
+    vec = orig * scale
+    kindv = (n + b + len(hist)) % 8
+    if scale == 1.0 and kindv in (1, 5) and np.all(orig * 1.5 == np.round(orig * 1.5)):
+        scale = 1.5
+        case['scale'] = scale
+        vec = [int(v) for v in orig * 1.5] if kindv == 1 else (orig * 1.5).astype(np.int64)
+        case['stored_as'] = 'list of ints' if kindv == 1 else 'int64 array'
     try:
         p = make_object(n, dt, sampling)
-        p.psd = orig * scale
+        p.psd = vec
     except Exception as e:
         raise core.MachineryError('cannot build Spectrum(n=%d, %s): %r' % (n, dt, e))
     if p.NFFT != n or p.sides != default:
